@@ -32,6 +32,8 @@ func runC18(c *Ctx) {
 	c.rule("defaults-pristine", "(shared with C01/C05) every re-stack starts from a deep copy of the defaults made inside compose: after a watched file change the previous file version's values cannot pose as defaults (defaults < file)", 2)
 	c.rule("event-old-is-predecessor", "(shared with C05/C06) the old config of every new-config event is the config loaded immediately before the install (never a remembered earlier one such as the file-less intermediate)", 1)
 	c.rule("flag-name-recorded", "(shared with C12) in both flag packages every flag name computed for a field is recorded in the name->field table on every path of that loop iteration, in particular before the 'flag already registered by the application' skip, so a given flag is never ignored by Value", 2)
+	c13Rules(c, "(shared with C13) ")
+	c.rule("params-reach-decoder", "an ez entry point that takes Params never selects the file decoder through the params-less extension table DecoderFromExtension (which cannot honour decoder options such as FlattenAnonymousFields)", 1)
 	c.rule("set-as-list", "the set-to-slice mangler is appended to the file decoder's chain exactly when DisableAutoSetToSlice is false", 1)
 
 	w := c.W
@@ -330,6 +332,8 @@ func runC18(c *Ctx) {
 	}
 	c12VisitClosures(c)
 	c12NameRecorded(c, "flag-name-recorded")
+	c13Body(c)
+	c18ParamsReachDecoder(c)
 
 	// ---- format-table -------------------------------------------------------------------------------------------
 	c18FormatTable(c)
@@ -446,5 +450,55 @@ func c18ParamsOnly(c *Ctx, rule string) {
 				c.check(okT, rule, relName(f)+"#"+fld, lit.Pos(), "ez sets "+fld+" to the constant true", "ez does not set "+fld+" to the constant true: global callbacks can see the file-less intermediate config")
 			}
 		}
+	}
+}
+
+// c18ParamsReachDecoder: functions of the ez package that receive a Params value must not go through the
+// params-less decoder table / entry point: the decoder options in Params (FlattenAnonymousFields ...) would be
+// dropped silently and the file layer of embedded-struct leaves disappears.
+func c18ParamsReachDecoder(c *Ctx) {
+	w := c.W
+	less := map[*ssa.Function]bool{}
+	for _, n := range []string{"DecoderFromExtension"} {
+		if f := w.fn("ez", n); f != nil {
+			less[origin(f)] = true
+		}
+	}
+	if len(less) == 0 {
+		c.undecided("params-reach-decoder", "ez", 0, "the params-less decoder table / entry point was not found")
+		return
+	}
+	bad := 0
+	n := 0
+	for _, f := range w.funcsIn("ez") {
+		if f.Parent() != nil {
+			continue
+		}
+		hasParams := false
+		for _, p := range f.Params {
+			if strings.HasSuffix(namedTypeName(p.Type()), "ez.Params") {
+				hasParams = true
+			}
+		}
+		if !hasParams || less[origin(f)] {
+			continue
+		}
+		n++
+		for _, i := range allInstrs(f) {
+			var ops []*ssa.Value
+			ops = i.Operands(ops)
+			for _, op := range ops {
+				if op == nil || *op == nil {
+					continue
+				}
+				if fn, ok := (*op).(*ssa.Function); ok && less[origin(fn)] {
+					bad++
+					c.bad("params-reach-decoder", relName(f), i.Pos(), "%s receives Params but selects the file decoder through %s, which ignores them: decoder options such as FlattenAnonymousFields are dropped", relName(f), relName(fn))
+				}
+			}
+		}
+	}
+	if bad == 0 {
+		c.ok("params-reach-decoder", "ez", 0, "none of the %d entry points that take Params goes through the params-less decoder table", n)
 	}
 }
